@@ -61,7 +61,14 @@ def _gen_case_a(seed: int, tier: str, index: int) -> Dict[str, Any]:
     hot = [rng.randrange(0, 1022) for _ in range(4)]
     for k in range(n):
         t += rng.choice([0.0, 0.002, 0.05, 0.3, 1.0, 3.0]) if not long_session else rng.choice([0.25, 0.4])
-        kind = rng.choices(["statp", "set1", "refresh"], [6, 2, 2] if not long_session else [8, 1, 0.3])[0]
+        kind = rng.choices(["statp", "set1", "refresh", "revert"], [6, 2, 2, 0.7] if not long_session else [8, 1, 0.3, 0.1])[0]
+        if kind == "revert":
+            # refresh; a reported change of one word; the spa returns to the old value WITHOUT reporting it (that report is lost); refresh
+            # again: the second refresh carries exactly what the first one carried and must put the old value back
+            val = (val + 1) % 65536
+            plan.append({"op": "revert", "t": round(t, 4), "pos": rng.randrange(300, 700), "val": val})
+            t += 6.0
+            continue
         if kind == "statp":
             cnt = rng.choice([0, 1, 1, 2, 3, 8, 30]) if rng.random() > 0.04 else rng.choice([200, 226, 240, 255])     # up to the one-byte maximum
             recs = []
@@ -133,6 +140,22 @@ async def scenario(world: WorldA) -> None:
                 if protocol is None or not spa.is_connected:
                     continue
                 asyncio.create_task(refresh(spa, protocol, op), name=f"HARNESS:refresh-{len(sent_msgs)}")
+            elif op["op"] == "revert":
+                spa = sysm.spa
+                protocol = getattr(spa, "_protocol", None) if spa is not None else None
+                if protocol is None or not spa.is_connected:
+                    continue
+                rng_op = {"start": 256, "length": 507}
+                await refresh(spa, protocol, rng_op)
+                old_word = model.structure.status_block[op["pos"]:op["pos"] + 2]
+                new_word = struct.pack(">H", op["val"]) if struct.pack(">H", op["val"]) != old_word else bytes([old_word[0] ^ 1, old_word[1]])
+                model.structure.replace_status_block_segment(op["pos"], new_word)
+                model.emit_statp([(op["pos"], new_word)])
+                sent_msgs.append([(op["pos"], new_word)])
+                await asyncio.sleep(0.5)
+                model.structure.replace_status_block_segment(op["pos"], old_word)        # unreported
+                await refresh(spa, protocol, rng_op)
+                res.probe("refresh_restores_a_value_after_an_unreported_revert")
 
     async def refresh(spa, protocol, op):
         try:
@@ -333,7 +356,7 @@ ASSUMPTIONS = [
     "arrival order is the order of delivery to the client's endpoint (a duplicated datagram is a second arrival)",
     "if the connection is torn down mid-run (rare; probe 'reconnected') only prefix consistency is demanded of the abandoned one",
 ]
-PROBES = ["message_with_200_or_more_records", "more_than_a_full_sequence_cycle_of_messages", "two_or_more_messages", "empty_message", "repeated_position_in_message", "duplicate_datagram_arrived",
+PROBES = ["refresh_restores_a_value_after_an_unreported_revert", "message_with_200_or_more_records", "more_than_a_full_sequence_cycle_of_messages", "two_or_more_messages", "empty_message", "repeated_position_in_message", "duplicate_datagram_arrived",
           "refresh_over_partial", "message_during_handshake", "one_byte_change"]
 N_QUICK = 1200
 
